@@ -235,7 +235,7 @@ def bytes_validator():
 # ------------------------------------------------------------------------------------------------ O2 plumbing
 FIELDS = [
     ("uint16", "p"), ("uint32", "q"), ("boolean", "b"), ("varint", "n"), ("string", "s"), ("bytes", "y"), ("digest", "d"), ("net.ipaddress", "ip"),
-    ("datetime", "ts"), ("string[]", "sl"), ("uint16[]", "ul"), ("float", "f"), ("path", "pa"), ("record", "r"),
+    ("datetime", "ts"), ("string[]", "sl"), ("uint16[]", "ul"), ("float", "f"), ("path", "pa"), ("record", "r"), ("net.ipaddress[]", "ipl"), ("net.ipnetwork", "nw"),
 ]
 MD5 = "d41d8cd98f00b204e9800998ecf8427e"
 _D = None
@@ -267,7 +267,11 @@ def candidates(typename):
         "digest": [((MD5, None, None), True), ((None, None, None), True), (None, True), (("abcd", None, None), False), ((MD5[:-1] + "g", None, None), False), ((MD5 + "00", None, None), False),
                    ((MD5[:8] + " " + MD5[8:16] + " " + MD5[16:24] + " " + MD5[24:], None, None), False), ((" " + MD5, None, None), False), ((MD5 + "\n", None, None), False),
                    ({"md5": MD5.upper()}, True), ((None, "da39a3ee5e6b4b0d3255bfef95601890afd8070", None), False)],
-        "net.ipaddress": [("1.2.3.4", True), ("::1", True), (0, True), (2**128 - 1, True), (2**128, False), (-1, False), ("1.2.3.256", False), ("not an ip", False), (None, True)],
+        # (values that already are field values of a sibling type: a network is not an address and vice versa)
+        "net.ipaddress": [("1.2.3.4", True), ("::1", True), (0, True), (2**128 - 1, True), (2**128, False), (-1, False), ("1.2.3.256", False), ("not an ip", False), (None, True),
+                          (lambda: FT.net.ipnetwork("10.0.0.0/8"), False), (lambda: FT.net.ipnetwork("::/0"), False), (lambda: FT.net.ipaddress("9.9.9.9"), True), ("10.0.0.0/8", False)],
+        "net.ipaddress[]": [([], True), (["1.2.3.4", "::1"], True), (None, True), (lambda: [FT.net.ipnetwork("10.0.0.0/8")], False), (["1.2.3.4", "10.0.0.0/8"], False), (lambda: [FT.net.ipaddress("::2")], True)],
+        "net.ipnetwork": [("10.0.0.0/8", True), ("::/0", True), ("1.2.3.4", True), (None, True), ("10.0.0.1/8", False), ("garbage", False), (lambda: FT.net.ipnetwork("192.168.0.0/16"), True)],
         "datetime": [(lambda: _dt.datetime(2020, 1, 1), True), (lambda: _dt.datetime(2020, 1, 1, tzinfo=utc), True), ("2020-01-01T00:00:00", True), (0, True), ("garbage", False), (None, True)],
         "string[]": [([], True), (["a", "b"], True), (None, True), (["a", b"\xff"], True), (("t",), True)],
         "uint16[]": [([], True), ([0, 0xFFFF], True), ([1, 0x10000], False), ([-1], False), (None, True), (lambda: [FT.uint32(70000)], False), (lambda: [FT.uint16(3)], True)],
@@ -309,7 +313,13 @@ def valid(typename, value):
     if typename == "datetime":
         return isinstance(value, FT.datetime) and value.tzinfo is not None
     if typename == "net.ipaddress":
-        return type(value).__name__ == "ipaddress" and value.val.version in (4, 6)
+        import ipaddress as _ipa
+
+        return type(value).__name__ == "ipaddress" and isinstance(value.val, (_ipa.IPv4Address, _ipa.IPv6Address))
+    if typename == "net.ipnetwork":
+        import ipaddress as _ipa
+
+        return type(value).__name__ == "ipnetwork" and isinstance(value.val, (_ipa.IPv4Network, _ipa.IPv6Network))
     if typename == "digest":
         if not isinstance(value, FT.digest):
             return False
@@ -324,7 +334,7 @@ def baseline():
     from flow.record import RecordDescriptor
 
     inner = RecordDescriptor("test/inner", [("varint", "k")])
-    return descriptor()(1, 2, True, 3, "s", b"y", (MD5, None, None), "10.0.0.1", _dt.datetime(2021, 1, 1, tzinfo=_dt.timezone.utc), ["x"], [5], 1.5, "/p", inner(9), _generated=_dt.datetime(2021, 1, 1, tzinfo=_dt.timezone.utc))
+    return descriptor()(1, 2, True, 3, "s", b"y", (MD5, None, None), "10.0.0.1", _dt.datetime(2021, 1, 1, tzinfo=_dt.timezone.utc), ["x"], [5], 1.5, "/p", inner(9), ["1.1.1.1"], "10.0.0.0/8", _generated=_dt.datetime(2021, 1, 1, tzinfo=_dt.timezone.utc))
 
 
 def snapshot(rec):
